@@ -68,18 +68,22 @@ pub fn range_i32(n: i32) -> (r: Vec<i32>)
 //@closure 1 mode=annotate params="__p: (usize, T)" ret="(o: Option<i32>)"
 //@closure 1 spec
                             ensures (o matches Some(i) ==> __p.1.is_some() && i == __p.0 as i32) && (o.is_none() ==> __p.1.is_none())
-//@closure 2 mode=annotate params="a: &i32, b: &i32" ret="(o: Ordering)"
+//@closure 2 mode=annotate key="sort_cmp(" params="a: &i32, b: &i32" ret="(o: Ordering)"
 //@closure 2 spec
                             requires 0 <= *a < this.view().len() && 0 <= *b < this.view().len()        // #C10 comparator_indices_in_range
-//@closure 3 mode=annotate params="a: &i32, b: &i32" ret="(o: Ordering)"
+                            ensures o == nl_cmp(this.view()[*a as int], this.view()[*b as int])          // #C12 ascending_comparator_orders_by_value_nulls_last
+//@closure 3 mode=annotate key="sort_cmp_rev(" params="a: &i32, b: &i32" ret="(o: Ordering)"
 //@closure 3 spec
                             requires 0 <= *a < this.view().len() && 0 <= *b < this.view().len()        // #C10 comparator_indices_in_range
-//@closure 4 mode=annotate params="a: &i32, b: &i32" ret="(o: Ordering)"
+                            ensures o == nl_cmp_rev(this.view()[*a as int], this.view()[*b as int])      // #C12 descending_comparator_orders_by_value_nulls_last
+//@closure 4 mode=annotate key="sort_cmp(" params="a: &i32, b: &i32" ret="(o: Ordering)"
 //@closure 4 spec
                 requires 0 <= *a < this.view().len() && 0 <= *b < this.view().len()                    // #C10 comparator_indices_in_range
-//@closure 5 mode=annotate params="a: &i32, b: &i32" ret="(o: Ordering)"
+                ensures o == nl_cmp(this.view()[*a as int], this.view()[*b as int])                      // #C12 ascending_comparator_orders_by_value_nulls_last
+//@closure 5 mode=annotate key="sort_cmp_rev(" params="a: &i32, b: &i32" ret="(o: Ordering)"
 //@closure 5 spec
                 requires 0 <= *a < this.view().len() && 0 <= *b < this.view().len()                    // #C10 comparator_indices_in_range
+                ensures o == nl_cmp_rev(this.view()[*a as int], this.view()[*b as int])                  // #C12 descending_comparator_orders_by_value_nulls_last
 //@spec
     requires
         kth < usize::MAX,
